@@ -12,6 +12,8 @@ from collections import Counter
 from functools import wraps
 from typing import TYPE_CHECKING
 
+import numpy as np
+
 from mici.errors import ReadOnlyStateError
 
 if TYPE_CHECKING:
@@ -32,6 +34,22 @@ def _cache_key_func(system: System, method: Callable) -> tuple[str, int]:
     if not isinstance(method, str):
         method = method.__name__
     return (f"{type(system).__name__}.{method}", id(system))
+
+
+def _without_variable_aliasing(state: ChainState, value: Any) -> Any:  # noqa: ANN401
+    """Copy array value if it may share memory with any of the state variable arrays.
+
+    Values cached in a state are shared with copies of the state while the state
+    variable arrays may be updated in-place, so a cached value which is (a view of) a
+    state variable array, for example as returned by a user supplied model function
+    such as `lambda q: q`, would be silently changed in the copies by such an update.
+    """
+    if isinstance(value, np.ndarray) and any(
+        isinstance(var, np.ndarray) and np.may_share_memory(value, var)
+        for var in state._variables.values()
+    ):
+        return value.copy()
+    return value
 
 
 def cache_in_state(
@@ -65,7 +83,10 @@ def cache_in_state(
                 for dep in depends_on:
                     state._dependencies[dep].add(key)
             if key not in state._cache or state._cache[key] is None:
-                state._cache[key] = method(self, state)
+                state._cache[key] = _without_variable_aliasing(
+                    state,
+                    method(self, state),
+                )
                 if state._call_counts is not None:
                     state._call_counts[key] += 1
             return state._cache[key]
@@ -145,9 +166,9 @@ def cache_in_state_with_aux(
                 vals = method(self, state)
                 if isinstance(vals, tuple):
                     for k, v in zip(keys, vals, strict=False):
-                        state._cache[k] = v
+                        state._cache[k] = _without_variable_aliasing(state, v)
                 else:
-                    state._cache[prim_key] = vals
+                    state._cache[prim_key] = _without_variable_aliasing(state, vals)
                 if state._call_counts is not None:
                     state._call_counts[prim_key] += 1
             return state._cache[prim_key]
